@@ -310,6 +310,16 @@ func c20Alias(cs c20Case) (fs []F) {
 		}
 	}
 	try("Write into the zero-length window", func() int { return dyn.Write(sl, w) })
+	if hw.Cap == 0 {
+		// the window begins at the parent's capacity: it has no storage at all, single-sample appends are no-ops
+		try("AppendSample x3 on the window without capacity", func() int {
+			for i := 0; i < 3; i++ {
+				w.AppendSample(dyn.Tok(t, 9))
+			}
+			return 0
+		})
+		try("Read from the window without capacity after the appends", func() int { return dyn.Read(w, sl) })
+	}
 	return
 }
 
